@@ -42,9 +42,11 @@ def family(ctx: Ctx) -> List[Func]:
     got = getattr(ctx, "_hasher_family", None)
     if got is not None:
         return got
-    outer = ctx.prog.funcs.get("dds.fun_args.dds_hash")
+    outer = ctx.prog.func("dds.fun_args.dds_hash")
     if outer is None:
         raise AnchorError("dds.fun_args.dds_hash not found")
+    from .roles import digest_helper_names
+    _digests = digest_helper_names(ctx)
     fam: List[Func] = []
     work = [outer]
     while work:
@@ -53,7 +55,8 @@ def family(ctx: Ctx) -> List[Func]:
             if isinstance(n, ast.Call):
                 fs, _ = ctx.prog.callees(f, n, ctx.types)
                 for g in fs:
-                    if g.module is outer.module and g is not outer and g not in fam and not g.name.startswith("_algo"):
+                    if g.module.name.startswith("dds") and g is not outer and g not in fam and g.qname not in _digests and (
+                            g.module is outer.module or g.name.startswith("_")) and g.module.name not in ("dds._config", "dds.structures"):
                         fam.append(g)
                         work.append(g)
     fam.sort(key=lambda g: (g.node.lineno, g.qname))
@@ -73,13 +76,57 @@ def fam_call(ctx: Ctx, f: Func, c: ast.AST) -> Optional[Func]:
     return None
 
 
-def value_param(g: Func) -> str:
+def value_index(ctx: Ctx, g: Func, _depth: int = 0) -> int:
+    """position (among the parameters a caller passes) of the parameter that holds the value being hashed: the one a dispatcher tests
+    with isinstance, or the one a wrapper hands to the dispatcher's value parameter"""
+    memo = ctx.__dict__.setdefault("_value_index", {})
+    if g.qname in memo:
+        return memo[g.qname]
     ps = g.positional_params()
-    return ps[0] if ps else ""
+    res = 0
+    counts = {p: 0 for p in ps}
+    for n in g.own_nodes():
+        if isinstance(n, ast.Call) and unparse(n.func) == "isinstance" and n.args and isinstance(n.args[0], ast.Name) and n.args[0].id in counts:
+            counts[n.args[0].id] += 1
+    if ps and max(counts.values()) > 0:
+        res = ps.index(max(ps, key=lambda p: counts[p]))
+    elif _depth < 3:
+        memo[g.qname] = 0
+        for n in g.own_nodes():
+            callee = fam_call(ctx, g, n)
+            if callee is not None and callee is not g and isinstance(n, ast.Call):
+                vi = value_index(ctx, callee, _depth + 1)
+                if vi < len(n.args) and isinstance(n.args[vi], ast.Name) and n.args[vi].id in ps:
+                    res = ps.index(n.args[vi].id)
+                    break
+    memo[g.qname] = res
+    return res
+
+
+def value_param(g: Func, ctx: Optional[Ctx] = None) -> str:
+    ps = g.positional_params()
+    if not ps:
+        return ""
+    return ps[value_index(ctx, g)] if ctx is not None else ps[0]
+
+
+def hashed_arg(ctx: Ctx, f: Func, call: ast.Call) -> Optional[ast.AST]:
+    """the argument of a call into the hasher family that is bound to the callee's value parameter"""
+    callee = fam_call(ctx, f, call)
+    if callee is None:
+        return call.args[0] if call.args else None
+    vi = value_index(ctx, callee)
+    ps = callee.positional_params()
+    if vi < len(call.args):
+        return call.args[vi]
+    for k in call.keywords:
+        if vi < len(ps) and k.arg == ps[vi]:
+            return k.value
+    return None
 
 
 def hasher(ctx: Ctx) -> Tuple[Func, Func]:
-    outer = ctx.prog.funcs.get("dds.fun_args.dds_hash")
+    outer = ctx.prog.func("dds.fun_args.dds_hash")
     if outer is None:
         raise AnchorError("dds.fun_args.dds_hash not found")
     best = None
@@ -158,7 +205,8 @@ def preimages(ctx: Ctx, f: Func, a: ast.AST, depth: int = 0) -> List[Tuple[Func,
     expressions) and single-definition locals"""
     if isinstance(a, ast.Call) and depth < 3:
         fs, _ = ctx.prog.callees(f, a, ctx._types)
-        fs = [g for g in fs if g.module.name.startswith("dds") and not g.name.startswith("_algo")]
+        from .roles import digest_helper_names as _dh
+        fs = [g for g in fs if g.module.name.startswith("dds") and g.qname not in _dh(ctx)]
         if fs:
             out: List[Tuple[Func, ast.AST]] = []
             for g in fs:
@@ -187,10 +235,10 @@ def algo_preimage_rule(ctx: Ctx, rule: str) -> int:
     rep = ctx.report
     prog = ctx.prog
     n = 0
-    for f in prog.module("dds.fun_args").funcs.values():
-        digests = [c for c in f.own_nodes() if isinstance(c, ast.Call) and ((prog.dotted(f, c.func) or "").startswith("hashlib.") or (
-            isinstance(c.func, ast.Name) and c.func.id.startswith("_algo") and c.func.id != f.name))]
-        if not f.name.startswith("_algo") or not digests or not f.params:
+    from .roles import digest_helpers, is_digest_call
+    for f in digest_helpers(ctx):
+        digests = [c for c in f.own_nodes() if isinstance(c, ast.Call) and ((prog.dotted(f, c.func) or "").startswith("hashlib.") or is_digest_call(ctx, f, c))]
+        if not digests or not f.params:
             continue
         for c in digests:
             if not c.args:
@@ -247,7 +295,7 @@ def run(ctx: Ctx) -> None:
     n1 = 0
     for names, br, bf in brs:
         is_int = "int" in names
-        for hf, elt_, n in branch_nodes(ctx, bf, br, value_param(bf)):
+        for hf, elt_, n in branch_nodes(ctx, bf, br, value_param(bf, ctx)):
             if not isinstance(n, ast.Call):
                 continue
             d = prog.dotted(hf, n.func) or ""
@@ -343,7 +391,7 @@ def run(ctx: Ctx) -> None:
     # the size limit the guard compares with is a validated option value
     rep.rule("C05.R9", "set_option stores a value only after its validation completed normally (the size guard compares len() with hash.max_sequence_size: a "
                        "refused value that was stored anyway turns every later hash into a low-level TypeError or a spurious SEQUENCE_TOO_LONG)")
-    so = prog.funcs.get("dds._config.set_option")
+    so = prog.func("dds._config.set_option")
     if so is None:
         raise AnchorError("dds._config.set_option not found")
     from .common import unfacade
@@ -363,7 +411,7 @@ def run(ctx: Ctx) -> None:
     rep.floor("C05.R9", n9, 1)
     # ... and what reset_option puts back is the option's default VALUE (the Option object itself, or its key, is not a value the size guard can compare)
     rep.rule("C05.R11", "reset_option stores `<option>.default` into the table of option values")
-    ro = prog.funcs.get("dds._config.reset_option")
+    ro = prog.func("dds._config.reset_option")
     if ro is None:
         raise AnchorError("dds._config.reset_option not found")
     ro = unfacade(ctx, ro)
@@ -517,8 +565,8 @@ def run(ctx: Ctx) -> None:
         used = set()
         for r in rets:
             for c in ast.walk(r.value):
-                if fam_call(ctx, nf, c) is not None and c.args:
-                    used |= {x.id for x in ast.walk(c.args[0]) if isinstance(x, ast.Name)}
+                if fam_call(ctx, nf, c) is not None and hashed_arg(ctx, nf, c) is not None:
+                    used |= {x.id for x in ast.walk(hashed_arg(ctx, nf, c)) if isinstance(x, ast.Name)}
         missing = [p_ for p_ in nf_params if p_ not in used]
         desc = f"helper {nf.name}: every component it is given is hashed into what it returns"
         if missing:
@@ -587,6 +635,7 @@ def run(ctx: Ctx) -> None:
         rep.ok("C05.R4", h.qname, desc + f": {pre}", h.loc())
     rep.floor("C05.R4", len(pre), 6)
 
+    from .roles import is_digest_call as _is_dc
     # ---- R5 numeric encodings ---------------------------------------------------------------------
     widths: Dict[str, List[int]] = {}
     tags: List[Tuple[str, bytes, str]] = []
@@ -596,7 +645,7 @@ def run(ctx: Ctx) -> None:
             continue
         label = "/".join(names)
         for n in ast.walk(br):
-            if isinstance(n, ast.Call) and isinstance(n.func, ast.Name) and n.func.id.startswith("_algo") and n.args:
+            if _is_dc(ctx, bf, n) and n.args:
                 for pf, a in preimages(ctx, bf, n.args[0]):
                     if isinstance(a, ast.Call) and (prog.dotted(pf, a.func) or "") == "struct.pack" and a.args and isinstance(a.args[0], ast.Constant):
                         widths.setdefault(label, []).append(struct.calcsize(a.args[0].value))
@@ -632,7 +681,7 @@ PINNED_VALUES = [
 def abstract_preimage(ctx: Ctx, val: Any) -> Tuple[Optional[bytes], str]:
     """the bytes that dds_hash digests for a value, by abstract evaluation of its source (inner digests folded); (None, reason) when undecided"""
     prog = ctx.prog
-    outer = prog.funcs.get("dds.fun_args.dds_hash")
+    outer = prog.func("dds.fun_args.dds_hash")
     if outer is None:
         raise AnchorError("dds.fun_args.dds_hash not found")
 
@@ -659,7 +708,7 @@ def pinned_preimages(ctx: Ctx, rule: str) -> int:
     tree by the same abstract evaluation): signatures persisted by earlier runs or by collaborators stay addressable"""
     from ..pinned_hashes import PINNED
     rep = ctx.report
-    outer = ctx.prog.funcs["dds.fun_args.dds_hash"]
+    outer = ctx.prog.func("dds.fun_args.dds_hash")
     n = 0
     bad, und = [], []
     for label, val in PINNED_VALUES:
@@ -715,7 +764,7 @@ def no_module_memo(ctx: Ctx, rule: str, what: str) -> int:
 def falsy_distinct(ctx: Ctx, rule: str) -> int:
     """None and the falsy values of different types are digested from different bytes (a binding of 0 / "" / () / None is not another one)"""
     rep = ctx.report
-    outer = ctx.prog.funcs["dds.fun_args.dds_hash"]
+    outer = ctx.prog.func("dds.fun_args.dds_hash")
     vals = [("None", None), ("0", 0), ("0.0", 0.0), ('""', ""), ("[]", []), ("{}", {}), ("1", 1), ('"0"', "0")]
     pre: Dict[str, bytes] = {}
     und = []
